@@ -266,7 +266,6 @@ func H_Block() {
 		}
 		nd.Assert("C09.auctioneer-receives-due-instalments", post.get(auctioneer, denomPay).Sub(pre.get(auctioneer, denomPay)).EQ(paid))
 		nd.Assert("C09.finished-iff-all-released", (ps == types.AuctionStatusFinished) == allReleased)
-		nd.Assert("C16.released-flag-iff-paid", true)
 	}
 
 	// ---- C13: extension rule ----
@@ -284,6 +283,14 @@ func H_Block() {
 			nd.Assert("C13.no-rounds-left-settles", nd.Implies(round == st.batchA.MaxExtendedRound, settled))
 			cur, lerr := e.K.GetLastMatchedBidsLen(e.Ctx, 0)
 			nd.Assert("C13.count-stored", lerr == nil)
+			// the count stored for the next comparison is the number of bids matched now
+			flagged := int64(0)
+			for _, b := range bidsOf(e, 0) {
+				if b.IsMatched {
+					flagged++
+				}
+			}
+			nd.Assert("C13.stored-count-is-current-matched-count", cur == flagged)
 			L := nd.ZOf(st.lastLen)
 			C := nd.ZOf(cur)
 			rate := nd.ZDec(st.batchA.ExtendedRoundRate)
